@@ -149,6 +149,28 @@ impl Engine for TableEngine {
         let mut known: Vec<(String, String)> = vec![];
         // depth profile: shallow tables, deep tables (many splits), or concentrated in few classes
         let max_depth = match kind { 1 => 6, 2 => 159, 3 => 40, _ => 20 };
+        if kind == 2 || idx % 10 == 8 {
+            // a full-depth table (160 buckets; `precompute_assorted_nodes` returns None, the last bucket
+            // is walked as a sorted one): nine or more live contacts sharing >= 150 bits with the local
+            // id make the last bucket split all the way down (round-3 seed C09)
+            for _ in 0..rng.range(9, 14) {
+                t += rng.below(2 * S as u64) as u128;
+                let d = match rng.below(4) { 0 | 1 => 159, 2 => 158, _ => rng.range(150, 159) as usize };
+                let id = hex(&id_with_lcp(rng, &me, d, true));
+                let a = mk_addr(rng, pool);
+                ops.push(format!("offer {} {id} {a} @{t}", rng.pick(&["g", "g", "q"])));
+                known.push((id, a));
+            }
+            for _ in 0..3 {
+                let mut x = me.clone();
+                let b = *rng.pick(&[159usize, 158, 0, 80]);
+                x[b / 8] ^= 1 << (7 - b % 8);
+                ops.push(format!("closest {} @{t}", hex(&x)));
+            }
+            ops.push(format!("closest {} @{t}", hex(&me)));
+            ops.push(format!("contacts @{t}"));
+            ops.push(format!("counts @{t}"));
+        }
         for k in 0..n {
             t += if rng.chance(1, 6) { time_gap(rng) } else { rng.below(3 * S as u64) as u128 };
             let r = rng.below(100);
